@@ -60,6 +60,8 @@ EXPECT = {
 # skeletons: a change there breaks the premise of these properties too
 # the cache-layer models M2 are tied to the source text by the deep embedding: interpreter(generated syntax) = M2
 DEEP = {p: ["CacheVerif.Proofs.DeepCache", "CacheVerif.Proofs.DeepCacheOf", "CacheVerif.Proofs.DeepSource"] for p in ("C01", "C02", "C05", "C06", "C07", "C08", "C09", "C12", "C15")}
+# the janitor goroutine and the finalizer, printed from the two constructors: a tick = one DeleteExpired pass of the model
+DEEP["C15"] = DEEP["C15"] + ["CacheVerif.Proofs.DeepJanitor"]
 
 # the concurrent cache model M5 is tied to the source text by: solo run of M5 = sequential step (ConcCacheSolo), and
 # steps of M5 = atomic actions the tracing interpreter records on the generated syntax (DeepTrace, both twins)
